@@ -8,23 +8,23 @@ Open Scope Z_scope.
 Section HoProofs.
   Variable A : Type.
   Variable app_ho : A -> list Z -> A * list Z.
-  Variables complete cpl_crash is_hr : list Z -> bool.
+  Variables complete is_hr : list Z -> bool.
   Variable miu_cs miu_sc : Z.
   Hypothesis Hmiu_cs : 1 <= miu_cs.
   Hypothesis Hmiu_sc : 1 <= miu_sc.
 
-  Notation hreact0 := (ho_react A app_ho complete cpl_crash is_hr miu_sc true).
-  Notation hreact := (ho_sys_react A app_ho complete cpl_crash is_hr miu_sc true).
-  Notation creact := (cl_react complete cpl_crash miu_cs).
+  Notation hreact0 := (ho_react A app_ho complete is_hr miu_sc true).
+  Notation hreact := (ho_sys_react A app_ho complete is_hr miu_sc true).
+  Notation creact := (cl_react complete miu_cs).
   Notation mkh := (Build_hsrv A).
   Notation mkc := Build_csess.
   Notation G := (mkg csess (hsrv A)).
   Notation runH := (run csess (hsrv A) creact hreact list_chan miu_cs miu_sc).
 
   (* the premise on ndeflib's strict decoder: a non-empty proper prefix of the message is
-     rejected with DecodeError (it is not complete, and the decoder raises nothing else) *)
+     rejected (DecodeError or ValueError: it is not complete) *)
   Definition prefix_free (m : list Z) : Prop :=
-    forall p q, p <> [] -> q <> [] -> m = p ++ q -> complete p = false /\ cpl_crash p = false.
+    forall p q, p <> [] -> q <> [] -> m = p ++ q -> complete p = false.
 
   (* ------------------------------------------------------------ server *)
   Lemma hreact_wrap s i : ho_server_stopped (fst (hreact0 s i)) = false ->
@@ -39,10 +39,10 @@ Section HoProofs.
     - cbn [map feed concat]. rewrite app_nil_r. reflexivity.
     - apply Forall_cons_iff in Hne. destruct Hne as [Hf Hfs]. cbn [map feed concat] in *.
       assert (Hnz : data ++ f <> []) by (destruct data; [cbn; exact Hf | discriminate]).
-      destruct (Hpf (data ++ f) (concat fs ++ q)) as [Hc Hx].
+      assert (Hc : complete (data ++ f) = false). apply (Hpf (data ++ f) (concat fs ++ q)).
       { exact Hnz. } { destruct (concat fs); [exact Hq | discriminate]. } { rewrite Hm, <- !app_assoc. reflexivity. }
       assert (E : hreact0 (mkh (HAccum data) a log) (IMsg f) = (mkh (HAccum (data ++ f)) a log, [])).
-      { unfold ho_react. cbn [hv_st hv_app hv_log]. rewrite Hc, Hx.
+      { unfold ho_react. cbn [hv_st hv_app hv_log]. rewrite Hc.
         replace (len (data ++ f) =? 0) with false; [reflexivity|].
         symmetry. apply Z.eqb_neq. intro H0. apply len_0_nil in H0. contradiction. }
       rewrite hreact_wrap; rewrite E; [|reflexivity]. cbn [fst snd app].
@@ -74,14 +74,14 @@ Section HoProofs.
 
   (* ------------------------------------------------------------ client *)
   Lemma creact_go st p r i st' outs :
-    client_react complete cpl_crash st i = (st', outs) -> st <> CIdle -> (forall x, st' <> CDone x) ->
+    client_react complete st i = (st', outs) -> st <> CIdle -> (forall x, st' <> CDone x) ->
     creact (mkc st p r) i = (mkc st' p r, map IMsg outs).
   Proof.
     intros E Hni Hnd. unfold cl_react, csess_react. cbn [c_cur c_pending c_results].
     destruct st; try congruence; rewrite E; destruct st'; try reflexivity; exfalso; eapply Hnd; reflexivity.
   Qed.
   Lemma creact_done st p r i x outs :
-    client_react complete cpl_crash st i = (CDone x, outs) -> st <> CIdle ->
+    client_react complete st i = (CDone x, outs) -> st <> CIdle ->
     creact (mkc st p r) i = (fst (start_ops miu_cs p (r ++ [x])), map IMsg outs ++ snd (start_ops miu_cs p (r ++ [x]))).
   Proof.
     intros E Hni. unfold cl_react, csess_react. cbn [c_cur c_pending c_results].
@@ -96,12 +96,12 @@ Section HoProofs.
     - cbn [map feed concat]. rewrite app_nil_r. reflexivity.
     - apply Forall_cons_iff in Hne. destruct Hne as [Hf Hfs]. cbn [map feed concat] in *.
       assert (Hnz : data ++ f <> []) by (destruct data; [cbn; exact Hf | discriminate]).
-      destruct (Hpf (data ++ f) (concat fs ++ q)) as [Hc Hx].
+      assert (Hc : complete (data ++ f) = false). apply (Hpf (data ++ f) (concat fs ++ q)).
       { exact Hnz. } { destruct (concat fs); [exact Hq | discriminate]. } { rewrite Hm, <- !app_assoc. reflexivity. }
       rewrite (creact_go _ _ _ _ (CHoRecv (data ++ f)) []); [ | | discriminate | discriminate].
       + cbn [fst snd map app]. rewrite (IH (data ++ f) p r q Hfs Hq) by (rewrite Hm, <- !app_assoc; reflexivity).
         rewrite <- app_assoc. reflexivity.
-      + cbn [client_react]. rewrite Hc, Hx. reflexivity.
+      + cbn [client_react]. rewrite Hc. reflexivity.
   Qed.
 
   Lemma cfeed_all msg p r fs : prefix_free msg -> complete msg = true ->
@@ -287,9 +287,9 @@ Section HoProofs.
 End HoProofs.
 
 (* the premise is satisfiable: a decoder that accepts exactly one message *)
-Lemma prefix_free_exact (m : list Z) : prefix_free (fun l => list_eqb l m) (fun _ => false) m.
+Lemma prefix_free_exact (m : list Z) : prefix_free (fun l => list_eqb l m) m.
 Proof.
-  intros p q Hp Hq Hm. split; [|reflexivity].
+  intros p q Hp Hq Hm.
   destruct (list_eqb p m) eqn:E; [|reflexivity]. apply list_eqb_eq in E. subst p.
   apply (f_equal (@length Z)) in Hm. rewrite app_length in Hm. destruct q; [congruence | cbn in Hm; lia].
 Qed.
@@ -303,8 +303,8 @@ Definition w_complete (l : list Z) : bool := w_starts [1; 2; 3] l || w_starts [4
 Definition w_app (a : nat) (_ : list Z) : nat * list Z := (S a, [7; 8]).
 
 Lemma handover_unrepaired_refuted :
-  let g := run_cp csess (hsrv nat) (cl_react w_complete (fun _ => false) 128)
-             (ho_sys_react nat w_app w_complete (fun _ => false) (fun _ => true) 128 false) list_chan 128 128 20
+  let g := run_cp csess (hsrv nat) (cl_react w_complete 128)
+             (ho_sys_react nat w_app w_complete (fun _ => true) 128 false) list_chan 128 128 20
              (ho_init nat list_chan 128 O [OpHo [1; 2; 3]; OpHo [4; 5; 6]]) in
   hv_log (g_s g) = [CallHo [1; 2; 3]; CallHo [1; 2; 3; 4; 5; 6]] /\
   hv_log (g_s g) <> [CallHo [1; 2; 3]; CallHo [4; 5; 6]].
